@@ -52,13 +52,13 @@ func VerifNewPipePool(addr string, capacity int, nextID *int64, serve func(id in
 }
 
 // VerifRealPoolCounters returns the resource pool's capacity / in-use / available counters.
-func VerifRealPoolCounters(p ConnectionPool) (capacity, inUse, available int64, ok bool) {
+func VerifRealPoolCounters(p ConnectionPool) (capacity, inUse, available, active int64, ok bool) {
 	cp, isReal := p.(*connectionPoolImpl)
 	if !isReal || cp.connections == nil {
-		return 0, 0, 0, false
+		return 0, 0, 0, 0, false
 	}
 	rp := cp.connections
-	return rp.Capacity(), rp.InUse(), rp.Available(), true
+	return rp.Capacity(), rp.InUse(), rp.Available(), rp.Active(), true
 }
 
 // VerifRealConnID maps a pooled connection built by VerifNewPipePool to its id.
